@@ -20,6 +20,7 @@
 
   Property theorems only; the proofs are in `Proofs/EvalLaws.lean` and `Proofs/EvalBasic.lean`.
 -/
+import LispModel.Proofs.Coherence
 import LispModel.Proofs.EnvAlgLaws
 import LispModel.Eval
 import LispModel.Proofs.EvalBasic
@@ -1076,5 +1077,23 @@ open LispModel.EnvAlg in
 /-- the binder never panics, whatever is passed as parameter list and argument list -/
 theorem binder_never_panics (st : Store) (outer : Nat) (bm em : V) (s : String) :
     (bind st outer bm em).2 ≠ .panic s := bind_no_panic st outer bm em s
+
+
+/-! ## coherence: the evaluator model and the `env` slice are two models of the SAME Go functions, and they agree
+(statements in `Proofs/Coherence.lean`; the slice is tied to env/env.go by engine envalg, the evaluator model by eval / enum) -/
+
+/-- the evaluator's parameter binder (`bindParams`) succeeds exactly when the mirror of `_newSubordinateEnvWithBinds` does -/
+theorem binder_models_succeed_together : type_of% @LispModel.Coherence.Binder.binder_success_iff :=
+  @LispModel.Coherence.Binder.binder_success_iff
+/-- … with the same bindings … -/
+theorem binder_models_bind_the_same : type_of% @LispModel.Coherence.Binder.binder_bindings_agree :=
+  @LispModel.Coherence.Binder.binder_bindings_agree
+/-- … and otherwise the same error (class, and the counts in it) -/
+theorem binder_models_fail_alike : type_of% @LispModel.Coherence.Binder.binder_error_class_agrees :=
+  @LispModel.Coherence.Binder.binder_error_class_agrees
+/-- symbol lookup through the scope chain: the evaluator's store and the `env` slice answer alike -/
+theorem lookup_models_agree : type_of% @LispModel.Coherence.Scoped.lookup_agrees := @LispModel.Coherence.Scoped.lookup_agrees
+/-- `def` / `Set` keep the two stores in correspondence -/
+theorem define_models_agree : type_of% @LispModel.Coherence.Scoped.define_agrees := @LispModel.Coherence.Scoped.define_agrees
 
 end LispModel.Props.C01
